@@ -1,32 +1,54 @@
-#!/bin/sh
-# usage: scripts/seeds_all.sh   runs every seeded change against the checks, writes seeded/RESULTS.md, re-runs the checks on the clean tree
+#!/bin/bash
+# usage: scripts/seeds_all.sh [name|Cxx]
+# Runs every seeded change against the checks and writes seeded/RESULTS.md.
+# Each change is applied to a scratch copy of /repo's current tree (outside /repo and /verif, removed
+# afterwards) and decided by `jsv all --repo <copy>`; 8 run in parallel. /repo itself is not touched.
 cd "$(dirname "$0")/.." || exit 2
 if [ -n "$(git -C /repo status --porcelain)" ]; then echo "repo not clean"; exit 2; fi
-res=seeded/RESULTS.md
-[ -n "$1" ] && res=/dev/null
+[ -x bin/jsv ] || { echo "build the analyzer first (./check C01)"; exit 2; }
+work=$(mktemp -d /tmp/seeds.XXXXXX) || exit 2
+trap 'rm -rf "$work"' EXIT
+filter="$1"
+one() {
+  name=$1; id=${name:0:3}; d=$work/$name
+  mkdir -p $d/repo $d/verif
+  rsync -a --exclude .git /repo/ $d/repo/
+  cp known_findings.json $d/verif/
+  if ! (cd $d/repo && patch -p1 -s --no-backup-if-mismatch < /verif/seeded/$name/patch.diff >/dev/null 2>&1); then
+    echo "CANNOT-APPLY" > $work/$name.status; rm -rf $d; return
+  fi
+  ./bin/jsv all --repo $d/repo --verif $d/verif > $work/$name.out 2>&1
+  if grep -q "VIOLATION property=$id " $work/$name.out; then echo CAUGHT > $work/$name.status; else echo MISSED > $work/$name.status; fi
+  rm -rf $d
+}
+export -f one; export work
+names=$(ls -d seeded/C*/ | xargs -n1 basename)
+if [ -n "$filter" ]; then names=$(echo "$names" | grep -E "^($filter|$filter-.*)$"); fi
+echo "$names" | xargs -P 8 -I{} bash -c 'one {}'
+res=seeded/RESULTS.md; [ -n "$filter" ] && res=/dev/stdout
+rc=0
 {
 echo "# Seeded breaking changes: which check reports which"
 echo
 echo "Each change was written by a fresh sub-agent from the property text alone, confirmed in a scratch worktree"
 echo "(builds, the pinned suite still passes, the demo test fails on the change and passes without it), and is kept here"
-echo "as patch.diff + zz_seed_demo_test.go + meta.json. This file is produced by scripts/seeds_all.sh."
+echo "as patch.diff + zz_seed_demo_test.go + meta.json. This file is produced by scripts/seeds_all.sh, which applies"
+echo "each patch to a scratch copy of /repo's current tree and runs all twenty checks on it."
 echo
-} > $res
-rc=0
-for d in seeded/C*/; do
-  name=$(basename $d); id=$(echo $name | cut -c1-3)
-  [ -n "$1" ] && [ "$1" != "$name" ] && [ "$1" != "$id" ] && continue
-  git -C /repo apply "/verif/seeded/$name/patch.diff" || { echo "cannot apply $id"; rc=2; continue; }
-  out=$(./bin/jsv all 2>&1)
-  git -C /repo checkout -- . ; git -C /repo clean -fdq
-  own=$(echo "$out" | grep -c "VIOLATION property=$id ")
-  echo "## $name" >> $res
-  python3 -c "import json;m=json.load(open('seeded/$name/meta.json'));print(m.get('summary') or m.get('what') or '')" >> $res 2>/dev/null
-  echo >> $res
-  if [ "$own" -gt 0 ]; then echo "SEED $name: CAUGHT"; echo "**caught by its own property's check**:" >> $res; else echo "SEED $name: MISSED"; echo "**MISSED by $id's check**" >> $res; rc=1; fi
-  echo >> $res
-  echo "$out" | grep -E "^    key=" | sed 's/^    key=/    /' | sort -u | head -12 >> $res
-  echo >> $res
+for name in $names; do
+  id=${name:0:3}; st=$(cat $work/$name.status 2>/dev/null || echo NO-RESULT)
+  echo "## $name"
+  python3 -c "import json;m=json.load(open('seeded/$name/meta.json'));print(m.get('summary') or m.get('what') or '')" 2>/dev/null
+  echo
+  case $st in
+    CAUGHT) echo "**caught by its own property's check**:" ;;
+    MISSED) echo "**MISSED by $id's check**" ;;
+    *) echo "**$st**" ;;
+  esac
+  echo
+  [ -f $work/$name.out ] && grep -E "^    key=" $work/$name.out | sed 's/^    key=/    /' | sort -u | head -12
+  echo
 done
-./bin/jsv all >/dev/null 2>&1
+} > $res
+for name in $names; do st=$(cat $work/$name.status 2>/dev/null || echo NO-RESULT); echo "SEED $name: $st"; [ "$st" = CAUGHT ] || rc=1; done
 exit $rc
